@@ -147,8 +147,10 @@ func VK09cPaging() {
 	limit := 1 + vrt.Choice(2+vrt.Tier())
 	var got []blob.Ref
 	cont := ""
+	// one constraint object reused for every page, the way an in-process caller does
+	cons := &Constraint{Permanode: &PermanodeConstraint{Attr: vAttr, Value: vValue}}
 	for page := 0; page < n+1; page++ {
-		q := &SearchQuery{Constraint: &Constraint{Permanode: &PermanodeConstraint{Attr: vAttr, Value: vValue}}, Limit: limit, Sort: srt, Continue: cont}
+		q := &SearchQuery{Constraint: cons, Limit: limit, Sort: srt, Continue: cont}
 		res, err := h.Query(context.Background(), q)
 		vrt.Assert(err == nil, "query succeeds")
 		vrt.Assert(len(res.Blobs) <= limit, "page within limit")
@@ -162,6 +164,11 @@ func VK09cPaging() {
 	}
 	vrt.Assert(cont == "", "paging terminates within n+1 pages")
 	vrt.Assert(len(got) == n, "every permanode returned exactly once (count)")
+	// the scroll position lives in the token only: the caller's constraint is as it was, and a
+	// second walk from the top with the same constraint starts where the first one did
+	vrt.Assert(cons.Logical == nil && cons.Permanode != nil && cons.Permanode.Continue == nil && cons.Permanode.Attr == vAttr, "a paged query leaves the caller's constraint unchanged")
+	res2, err2 := h.Query(context.Background(), &SearchQuery{Constraint: cons, Limit: limit, Sort: srt})
+	vrt.Assert(err2 == nil && (n == 0 || (len(res2.Blobs) > 0 && len(got) > 0 && res2.Blobs[0].Blob == got[0])), "a second walk with the same constraint starts from the top again")
 	for i := 0; i < len(got) && i < n; i++ {
 		// position of got[i]
 		k := -1
